@@ -20,19 +20,16 @@ func Goroutines() []string {
 	return strings.Split(strings.TrimSpace(string(buf)), "\n\n")
 }
 
-// FunGoroutines returns the goroutines that have a frame in
-// github.com/tychoish/fun (any package of the library) and no frame of the
-// harness itself: goroutines the library started on its own behalf.
+// FunGoroutines returns the goroutines that the library started on its own
+// behalf: those whose "created by" frame is in github.com/tychoish/fun (any
+// package).  A library goroutine that is currently inside a callback of the
+// harness is included - it only ends if the library lets it end.
 func FunGoroutines() []string {
 	var out []string
 	for _, g := range Goroutines() {
-		if !strings.Contains(g, "github.com/tychoish/fun") {
-			continue
+		if i := strings.LastIndex(g, "created by "); i >= 0 && strings.HasPrefix(g[i+len("created by "):], "github.com/tychoish/fun") {
+			out = append(out, g)
 		}
-		if strings.Contains(g, "verif/harness/") {
-			continue
-		}
-		out = append(out, g)
 	}
 	return out
 }
